@@ -7,6 +7,7 @@ package main
 // A `frozen` obligation checks that no function outside package initialisation writes them.
 
 import (
+	"go/token"
 	"regexp"
 	"encoding/json"
 	"fmt"
@@ -391,6 +392,13 @@ func (p *Program) frozenViolations() map[string][]string {
 			return rootGlobal(x.X, depth+1)
 		case *ssa.IndexAddr:
 			return rootGlobal(x.X, depth+1)
+		case *ssa.UnOp:
+			// an address inside a slice (or behind a pointer) that is stored in the table
+			if x.Op == token.MUL {
+				return rootGlobal(x.X, depth+1)
+			}
+		case *ssa.Slice:
+			return rootGlobal(x.X, depth+1)
 		}
 		return nil
 	}
@@ -643,6 +651,13 @@ func (p *Program) groundObligations(verif, prop, tier string) []*Oblig {
 	var names []string
 	for g := range p.usedGround {
 		names = append(names, g)
+	}
+	for g, prs := range p.cs.FrozenProps {
+		for _, pr := range prs {
+			if pr == prop && !p.usedGround[g] {
+				names = append(names, g)
+			}
+		}
 	}
 	sort.Strings(names)
 	for _, g := range names {
